@@ -2712,14 +2712,14 @@ class ConvertRecordsNode(ViewRepresentation):
         """
         if temp_id_source is None:
             temp_id_source = [0]
+        # the conversion reads the columns of its record specification and no others
         near_sql = self.sources[0].to_near_sql_implementation_(
             db_model=db_model,
-            using=None,
+            using=OrderedSet(self.columns_used_from_sources(using=using)[0]),
             temp_id_source=temp_id_source,
             sql_format_options=sql_format_options,
         )
         assert isinstance(near_sql, data_algebra.near_sql.NearSQL)
-        # claims to use all columns
         if self.record_map.blocks_in is not None:
             view_name = "convert_records_blocks_in_" + str(temp_id_source[0])
             temp_id_source[0] = temp_id_source[0] + 1
